@@ -20,8 +20,8 @@ from harness import tlc
 def _RunOne(case):
   text = case.get('text') or ir.RenderProgram(case['prog'])
   try:
-    res = impl.RunProgram(text, case['query'], keep_sql=case.get('keep_sql',
-                                                                 False))
+    run = impl.RunWorkflow if case.get('workflow') else impl.RunProgram
+    res = run(text, case['query'], keep_sql=case.get('keep_sql', False))
   except BaseException as e:  # pylint: disable=broad-except
     res = {'status': 'internal', 'stage': 'harness', 'cls': type(e).__name__,
            'msg': str(e)[:500], 'preds': {}}
@@ -126,14 +126,18 @@ def Validate(lines, tag, shards=None, timeout=3600):
   verdicts = {}
   errors = []
   states = 0
+  modes = {}
   for path, r in zip(paths, results):
     states += r.distinct
     for line in r.out.splitlines():
       v = ParseVerdictLine(line)
       if v:
         verdicts[(v['id'], v['p'])] = (v['ok'], v['exp'])
+        if v.get('mode'):
+          modes[v['mode']] = modes.get(v['mode'], 0) + 1
     if r.rc not in (0,) and 'Accepted' not in r.out:
       errors.append((path, r.rc, r.out[-3000:]))
     elif r.error and 'Accepted' not in r.out and 'is violated' not in r.out:
       errors.append((path, r.rc, r.out[-3000:]))
-  return verdicts, {'tlc_states': states, 'shards': len(paths)}, errors
+  return verdicts, {'tlc_states': states, 'shards': len(paths),
+                    'modes': modes}, errors
